@@ -233,6 +233,8 @@ func SkipNative() {
 	Out.Skipped = true
 	panic(stopPanic{})
 }
+// Unsupported ends the path as inconclusive under the engine; natively the replay is not realisable.
+func Unsupported(msg string) { SkipNative() }
 func Note(s string)          { Out.Notes = append(Out.Notes, s) }
 func FindingKey(s string)    {}
 func ExpectPanic(b bool)     {}
